@@ -106,6 +106,8 @@ fn receive_frames(wire: Vec<u8>) -> Option<Vec<Frame>> {
 /// .unwrap()` in the song and list decoders); the model side decides which they are
 pub const ALIEN_KEYS: &[&str] = &[
     "R128_TRACK_GAIN", "mp3gain", "Title2", "1", "x.y", "Ti tle", "Artist1", "a:b", "Täg", "disc#", "0Album", "Track9",
+    // names all of whose BYTES are letters when read as Latin-1 code points (a byte-to-char slip)
+    "ê", "µ", "ª", "º", "õ", "ú", "Ī", "к", "Titlê", "Artistª",
 ];
 
 /// whether the *real* parser carries these fields as they are is decided by the real parser (below);
